@@ -107,6 +107,11 @@ func confirmAndMinimise(b builds, cfg tierCfg, viol *proto.Record) *proto.Record
 	if len(cur.Violations) == 0 {
 		return cur
 	}
+	if cur.Class == "nondeterministic_result" && cur.ReplayMode == "probabilistic" && len(cur.Run.Tasks) == 1 && len(cur.Run.Tasks[0].Ops) == 1 {
+		// established by many fresh processes already; one call cannot be shrunk further
+		cur.Note += " (one call; fresh processes disagree about its result; replay tries up to 256 processes)"
+		return cur
+	}
 	if cur.Run.Policy.Kind == "free" || len(cur.Run.Tasks) == 0 {
 		cur.ReplayMode = "probabilistic"
 		cur.Note += " (free-running mode: replay is best-effort)"
